@@ -225,7 +225,7 @@ impl Check for MigrationCheck {
                 // exchange on others
                 // directed schedule fault: the next n RESTORE messages stay in flight up to x ms longer, and
                 // a racing client deletes their key through a random proxy the moment they are sent
-                "racer": if index % 3 == 1 { json!({"uses": rng.range(4, 40), "extra_ms_max": *rng.pick(&[30u64, 120, 400]), "jitter_ms": rng.below(4)}) } else { Value::Null },
+                "racer": if index % 3 == 1 { json!({"uses": rng.range(4, 40), "extra_ms_max": *rng.pick(&[30u64, 120, 400, 400]), "jitter_ms": rng.below(4), "pulls_only": rng.chance(2, 3)}) } else { Value::Null },
                 "spike_pm": *rng.pick(&[0u64, 0, 20, 60, 150]),
                 "spike_factor_max": *rng.pick(&[8u64, 20, 40]),
             },
@@ -559,7 +559,7 @@ async fn run_migration(prop: &'static str, plan: &Value, want_sample: bool) -> R
     // the racer: told about every watched RESTORE as it is sent, deletes that key at once
     let racer = if cfg["racer"].is_object() {
         let (tx, mut rx) = futures::channel::mpsc::unbounded::<Vec<u8>>();
-        net.add_watch(crate::simnet::Watch { cmd: "RESTORE".to_string(), uses_left: cfg["racer"]["uses"].as_u64().unwrap_or(8) as u32, extra_ms_max: cfg["racer"]["extra_ms_max"].as_u64().unwrap_or(100), notify: Some(tx) });
+        net.add_watch(crate::simnet::Watch { cmd: "RESTORE".to_string(), uses_left: cfg["racer"]["uses"].as_u64().unwrap_or(8) as u32, extra_ms_max: cfg["racer"]["extra_ms_max"].as_u64().unwrap_or(100), only_local: cfg["racer"]["pulls_only"].as_bool().unwrap_or(false), notify: Some(tx) });
         let jitter = cfg["racer"]["jitter_ms"].as_u64().unwrap_or(0);
         let net = net.clone();
         let keys = keys.clone();
